@@ -181,19 +181,25 @@ End Wrappers.
 Definition marshal_duration (fmt : Z -> bytes) (d : Z) (ignore_empty : bool) : bytes :=
   if (d =? 0) && negb ignore_empty then [] else fmt d.
 
-(* ParseTimestamp: "" -> nil; UnmarshalJSON(quote(s)), on failure UnmarshalJSON(s).
+(* ParseTimestamp: "" -> nil; UnmarshalJSON(quote(s)), on failure UnmarshalJSON(s); then CheckValid.
    A timestamp is (seconds, nanos). *)
 Definition ts := (Z * Z)%type.
+(* timestamppb CheckValid: years 0001..9999 and normalised nanos *)
+Definition ts_check_valid (t : ts) : bool :=
+  (-62135596800 <=? fst t) && (fst t <? 253402300800) && (0 <=? snd t) && (snd t <? 1000000000).
+
 Definition parse_timestamp (quote : bytes -> bytes) (ujson : bytes -> option ts) (s : bytes)
   : outcome (option ts) :=
   if negb (nonempty s) then Ok None
-  else match ujson (quote s) with
-       | Some t => Ok (Some t)
-       | None => match ujson s with
-                 | Some t => Ok (Some t)
-                 | None => Err E_INVALID
-                 end
-       end.
+  else
+    let parsed := match ujson (quote s) with
+                  | Some t => Some t
+                  | None => ujson s
+                  end in
+    match parsed with
+    | None => Err E_INVALID
+    | Some t => if ts_check_valid t then Ok (Some t) else Err E_INVALID   (* ts.CheckValid() *)
+    end.
 (* MarshalTimestamp: nil -> "", else AsTime().Format(layout) *)
 Definition marshal_timestamp (fmt : ts -> bytes) (t : option ts) : bytes :=
   match t with None => [] | Some x => fmt x end.
